@@ -6,6 +6,7 @@ import SonicModel.Lemmas.MetaPack
 import SonicModel.Lemmas.NodeBound
 import SonicModel.Lemmas.DomParseProof
 import SonicModel.Lemmas.NumSound
+import SonicModel.Lemmas.DomSound
 namespace Sonic.Thm.C03
 open Sonic Gen Impl Spec
 
@@ -47,6 +48,14 @@ theorem meta_idx_bound_tight :
 theorem dom_parser_emits_the_specification_tree (buf : Buf) (s e : Nat) (h : Spec.document true buf = some (s, e)) :
     ∃ t, docTree false buf = some t ∧ DomP.document buf = some t :=
   DomP.document_of_strict buf s e h
+
+/-- **… for every ACCEPTED text** (fourth session: the converse direction, `Lemmas/DomSound.lean`): whenever the model of the
+    decoding parser returns a tree, the text is a strictly well-formed document and the tree is exactly the tree the
+    specification reads from it — the property as stated, "for every accepted JSON text the DOM value has the same tree as
+    the text denotes" -/
+theorem accepted_text_has_the_specification_tree (buf : Buf) (t : Json) (h : DomP.document buf = some t) :
+    ∃ s e, Spec.document true buf = some (s, e) ∧ docTree false buf = some t :=
+  DomP.strict_of_document buf t h
 
 /-- … value by value (any fuel that suffices for the grammar suffices for the parser) -/
 theorem dom_parser_on_wellformed_value (buf : Buf) (f w e : Nat) (h : Spec.value true f buf w = .ok e) :
